@@ -121,6 +121,43 @@ let sb_line (w : ostring list) : bool =
        | Some s -> let c = n_of_int (65 + !sb_k mod 26) in incr sb_k; fin (append_char fmtsb_params s c)); true
   | _ -> false
 
+(* ---- emitted HashMap lines (same protocol as probes/hm_probe.c): hnew <eng> | put <key> <v> | has/get/rm <key> | len | clear | keys *)
+let hm_mode = ref false
+let hm_state : (hmap * (hkey * n) list) option ref = ref None
+let hkey_of (s : ostring) : hkey =
+  let body = String.sub s 2 (String.length s - 2) in
+  if s.[0] = 's' then KStr (List.init (String.length body) (fun i -> n_of_int (Char.code body.[i]))) else KInt (n_of_hex body)
+let str_hkey (k : hkey) : ostring =
+  match k with
+  | KInt x -> "i:" ^ hex_of_n x
+  | KStr bs -> let b = Buffer.create 16 in List.iter (fun x -> Buffer.add_char b (Char.chr (int_of_n x))) bs; "s:" ^ Buffer.contents b
+let str_hm (m : hmap) : ostring =
+  let st = Buffer.create 64 and h = Buffer.create 256 in
+  List.iteri (fun i e -> match e with
+    | Empty -> Buffer.add_char st '.'
+    | Tomb _ -> Buffer.add_char st 'T'
+    | Live (k, v) -> Buffer.add_char st 'L'; Buffer.add_string h (Printf.sprintf "%d:%s=%s;" i (str_hkey k) (hex_of_n v))) m.h_entries;
+  Printf.sprintf " | size=%d tombs=%d cap=%d st=%s h=%s" (int_of_nat m.h_count) (int_of_nat m.h_tombs) (int_of_nat m.h_cap) (Buffer.contents st) (fnv (Buffer.contents h))
+let hm_exec (w : ostring list) =
+  match w, !hm_state with
+  | ["hnew"; _], _ -> let m = hnew hm_params in hm_state := Some (m, []); print_string ("unit" ^ str_hm m ^ "\n")
+  | _, None -> print_string "skip\n"
+  | ["keys"], Some (m, _) -> print_string ("keys " ^ String.concat "," (List.map str_hkey (hkeys m)) ^ Printf.sprintf " | size=%d\n" (int_of_nat m.h_count))
+  | _, Some (m, l) ->
+     let o = (match w with
+       | ["put"; k; v] -> Some (HPut (hkey_of k, n_of_hex v)) | ["has"; k] -> Some (HHas (hkey_of k)) | ["get"; k] -> Some (HGet (hkey_of k))
+       | ["rm"; k] -> Some (HRemove (hkey_of k)) | ["len"] -> Some HLength | ["clear"] -> Some HClear | _ -> None) in
+     (match o with
+      | None -> print_string "bad\n"
+      | Some o ->
+        let (l', xa) = amstep l o in
+        (match hstep hm_params m o with
+         | HCrash -> hm_state := None; print_string "crash\n"
+         | HOk (m', x) ->
+            let extra = (if x = xa && int_of_nat m'.h_count = List.length l' then "" else " ABS-MISMATCH") in
+            hm_state := Some (m', l');
+            print_string ((match x with None -> "unit" | Some v -> "val " ^ hex_of_n v) ^ str_hm m' ^ extra ^ "\n")))
+
 (* ---- runtime list lines (same protocol as probes/list_probe.c); the engine name is ignored: one template *)
 let rl_state : rlist option ref = ref None
 let str_rl (s : rlist) =
@@ -202,7 +239,9 @@ let dyn_main () =
   iter_lines (fun line ->
     match words line with
     | [] -> ()
-    | w when gc_line w -> ()
+    | "hnew" :: _ as w -> hm_mode := true; list_mode := false; hm_exec w
+    | w when !hm_mode && (match w with ["new"; _] | ["newcap"; _; _] | ["sbnew"; _] | ["lnew"; _] | ["lcap"; _; _] | ["gnew"] -> false | _ -> true) -> hm_exec w
+    | w when (hm_mode := false; gc_line w) -> ()
     | ["lnew"; _] -> rl_start (rl_new list_params)
     | ["lcap"; _; c] -> rl_start (rl_with_capacity (nat_of_int (int_of_string c)))
     | w when !list_mode && (match w with ["new"; _] | ["newcap"; _; _] | ["sbnew"; _] -> false | _ -> true) ->
